@@ -101,8 +101,8 @@ class Env:
         self.to_df = scn == "runner-df"
         self.sc = c10.Scn("runner" if self.to_df else scn)
         self.nset = 6
-        self.d = os.path.join(core.scratch_root(), "c12.results.batches")
-        core.fresh_dir("c12.results.batches")
+        self.d = os.path.join(core.scratch_root(), "c12.results[1].batches")
+        core.fresh_dir("c12.results[1].batches")
         builtins._xv_draw_a = builtins._xv_draw_b = 0
         sc = self.sc
         # (the farmer that harvested the earlier data is the one the crop is
